@@ -278,11 +278,44 @@ func (g *Engine) runBatch(items []Item) {
 			batch = append(batch, c)
 		}
 	}
+	// conversions of an earlier batch still waiting in the pool would join this batch's prime block
+	split := false
+	inBatch := map[*Conv]bool{}
+	for _, c := range batch {
+		inBatch[c] = true
+	}
+	for _, c := range g.Convs {
+		if c.State == "submitted" && !inBatch[c] {
+			split = true
+		}
+	}
 	g.mine(mininet.Zone)
 	for _, c := range batch {
 		if c.State == "submitted" {
 			// left in the pool by the block builder (block full, fee order): it may still be included later
 			g.Stats["not_in_next_block"]++
+			split = true
+		}
+	}
+	planned := 0
+	for _, it := range items {
+		if it.Want != "" {
+			planned++
+		}
+	}
+	have := 0
+	for _, c := range batch {
+		if c.Want != "" {
+			have++
+		}
+	}
+	if split || have != planned {
+		// the specification predicted the outcome kinds of THIS batch confirmed by ONE prime block: not what happens now
+		for _, c := range batch {
+			if c.Want != "" && c.Want != "refused" {
+				c.Want = ""
+				g.Stats["predictions_dropped_batch_not_as_planned"]++
+			}
 		}
 	}
 	g.mine(mininet.Region)
